@@ -268,9 +268,11 @@ def binop(ip, op, a, b):
         return date_add(ip, b, a.f['us'], 1)
     if op == 'Sub' and sa == 'date' and sb == 'date':
         ta, tb = a.t, b.t
-        if not (ip.ctx.must(V.kind(ta) == 1) and ip.ctx.must(V.kind(tb) == 1)):
-            raise OutOfReach('datetime subtraction of non-normalised values')
-        return Obj('timedelta', us=z3.simplify(V.us(ta) - V.us(tb)))
+        if ip.ctx.branch(V.kind(ta) == V.kind(tb)):
+            return Obj('timedelta', us=z3.simplify(V.us(ta) - V.us(tb)))
+        if ip.ctx.branch(z3.Or(V.kind(ta) == 0, V.kind(tb) == 0)):
+            raise_('TypeError', 'unsupported operand type(s) for -: datetime.date and datetime.datetime')
+        raise_('TypeError', "can't subtract offset-naive and offset-aware datetimes")
     if op == 'Add' and sa == 'list' and sb == 'list':
         from .models_calls import list_concat
         return list_concat(ip, a, b)
@@ -528,10 +530,13 @@ def compare(ip, op, a, b):
         return _bool_val({'Lt': x < y, 'LtE': x <= y, 'Gt': y < x, 'GtE': y <= x}[op])
     if sa == 'date' and sb == 'date':
         ta, tb = a.t, b.t
-        if ctx.must(z3.And(V.kind(ta) == 1, V.kind(tb) == 1)):
+        # CPython: two dates, two naive or two aware datetimes are ordered by their instant; mixing them is a TypeError
+        if ctx.branch(V.kind(ta) == V.kind(tb)):
             x, y = V.us(ta), V.us(tb)
             return _bool_val({'Lt': x < y, 'LtE': x <= y, 'Gt': x > y, 'GtE': x >= y}[op])
-        raise OutOfReach('ordering of non-normalised datetimes')
+        if ctx.branch(z3.Or(V.kind(ta) == 0, V.kind(tb) == 0)):
+            raise_('TypeError', "can't compare datetime.datetime to datetime.date")
+        raise_('TypeError', "can't compare offset-naive and offset-aware datetimes")
     raise_('TypeError', f'ordering not supported between these operand types ({sa}, {sb})')
 
 
